@@ -297,6 +297,42 @@ func checkStopOrder(w *World, r *Report) {
 		}
 		r.Check(okWG, "stop.run-counted", FuncName(run)+": every run is counted", w.Pos(run.Pos()), "Run starts with wg.Add(1); defer wg.Done()", "a task run is not counted in the runner's WaitGroup from its first statement: Cancel returns while the run is still going")
 	}
+	// exec handler: a command that ended by a signal while the context is done reports the context's error
+	// (that is what marks the task — and through the scheduler's result the job — as canceled, not failed)
+	for _, fn := range w.ModFuncs {
+		if fn.Parent() == nil || fn.Parent().Parent() != nil || !strings.HasSuffix(fn.Parent().Signature.Results().String(), "interp.ExecHandlerFunc)") {
+			continue
+		}
+		pr := w.EnumPaths(fn, EnumOpts{})
+		r.Count("paths", len(pr.Paths))
+		n, bad := 0, ""
+		for _, p := range pr.Paths {
+			signaled, ctxDone := false, false
+			for _, l := range p.Lits {
+				if l.Atom.Op == "true" && strings.Contains(l.Atom.L, "WaitStatus).Signaled(") && l.Val {
+					signaled = true
+				}
+				if l.Atom.Op == "==" && strings.HasSuffix(l.Atom.L, "arg0.Err()") && l.Atom.R == "nil" && !l.Val {
+					ctxDone = true
+				}
+			}
+			if !signaled {
+				continue
+			}
+			if ctxDone {
+				n++
+				if len(p.Ret) != 1 || !strings.HasSuffix(p.Ret[0], "arg0.Err()") {
+					bad = "signaled ∧ ctx.Err() != nil returns " + strings.Join(p.Ret, ",") + " (path " + p.LitString() + ")"
+				}
+			}
+		}
+		if n == 0 && len(pr.Paths) > 4 {
+			bad = "no path maps a signaled exit under a done context to the context's error"
+		}
+		if len(pr.Paths) > 4 {
+			r.Check(bad == "", "stop.killed-command-reports-context-error", FuncName(fn)+": signaled exit under a done context", w.Pos(fn.Pos()), "every path with Signaled() ∧ ctx.Err() != nil returns ctx.Err()", "a command killed because of the cancel is not reported with the context's error: "+bad+" — the task is reported failed (exit status 128+signal) instead of canceled")
+		}
+	}
 	// TaskRunner.Cancel: cancel then wait
 	if c := w.FuncByName("taskctl", "(*TaskRunner).Cancel"); c != nil {
 		pr := w.EnumPaths(c, EnumOpts{})
@@ -349,10 +385,35 @@ func checkCanceledVerdict(w *World, r *Report, ro *Roles) {
 		r.Undecided("verdict.acknowledged-cancel-is-reported", FuncName(s), w.Pos(s.Pos()), "path cap exceeded")
 		return
 	}
-	// (A) the acknowledging path of the internal cancel records the request on the job, and the
-	// completion handler turns it into Canceled = true
+	// (A) every cancel REQUEST (exported cancel, forced shutdown) goes through a function W in
+	// which every acknowledging path records the request on the job under the lock, and the
+	// completion handler turns it into Canceled = true. W is the internal cancel itself (every
+	// delivering path stores the flag) or a wrapper of it (every path with result == nil stores it).
+	// The internal fail-fast cancel after a task failure is not a request (C08: the job ends errored).
 	recorded := map[string]bool{}
 	nDeliver := 0
+	var wrapperFn *ssa.Function
+	flagStores := func(p *Path) map[string]bool {
+		here := map[string]bool{}
+		for _, e := range p.Effects {
+			if e.Kind == "store" && strings.HasPrefix(e.Target, "recv.jobsByID[arg0].") && e.Val == "true" {
+				here[strings.TrimPrefix(e.Target, "recv.jobsByID[arg0].")] = true
+			}
+		}
+		return here
+	}
+	meet := func(here map[string]bool) {
+		nDeliver++
+		if nDeliver == 1 {
+			recorded = here
+			return
+		}
+		for k := range recorded {
+			if !here[k] {
+				delete(recorded, k)
+			}
+		}
+	}
 	if ro.CancelInt != nil {
 		cr := w.EnumPaths(ro.CancelInt, EnumOpts{})
 		for _, p := range cr.Paths {
@@ -362,24 +423,50 @@ func checkCanceledVerdict(w *World, r *Report, ro *Roles) {
 					delivers = true
 				}
 			}
-			if !delivers {
-				continue
+			if delivers {
+				meet(flagStores(p))
 			}
-			nDeliver++
-			here := map[string]bool{}
-			for _, e := range p.Effects {
-				if e.Kind == "store" && strings.HasPrefix(e.Target, "recv.jobsByID[arg0].") && e.Val == "true" {
-					here[strings.TrimPrefix(e.Target, "recv.jobsByID[arg0].")] = true
+		}
+		wrapperFn = ro.CancelInt
+		if len(recorded) == 0 {
+			// a wrapper: a direct caller of the internal cancel whose result == nil paths all store the flag
+			for _, cand := range ro.rootFuncs() {
+				if cand == ro.CancelInt || len(findCalls(cand, func(_ string, c *ssa.CallCommon) bool { return c.StaticCallee() == ro.CancelInt })) == 0 {
+					continue
 				}
-			}
-			if nDeliver == 1 {
-				recorded = here
-			} else {
-				for k := range recorded {
-					if !here[k] {
-						delete(recorded, k)
+				recorded, nDeliver = map[string]bool{}, 0
+				wr := w.EnumPaths(cand, EnumOpts{})
+				for _, p := range wr.Paths {
+					ack := false
+					for _, l := range p.Lits {
+						if l.Atom.Op == "==" && strings.HasPrefix(l.Atom.L, FuncName(ro.CancelInt)+"(") && l.Atom.R == "nil" && l.Val {
+							ack = true
+						}
+					}
+					if ack && p.End == "return" {
+						meet(flagStores(p))
 					}
 				}
+				if len(recorded) > 0 {
+					wrapperFn = cand
+					break
+				}
+			}
+		}
+	}
+	// every request entry reaches the internal cancel only through W
+	requestsOK := wrapperFn != nil
+	requestDetail := ""
+	if wrapperFn != nil && wrapperFn != ro.CancelInt {
+		for _, entry := range []*ssa.Function{ro.CancelAPI, ro.Shutdown} {
+			if entry == nil {
+				continue
+			}
+			direct := len(findCalls(entry, func(_ string, c *ssa.CallCommon) bool { return c.StaticCallee() == ro.CancelInt })) > 0
+			via := len(findCalls(entry, func(_ string, c *ssa.CallCommon) bool { return c.StaticCallee() == wrapperFn })) > 0
+			if direct || !via {
+				requestsOK = false
+				requestDetail = FuncName(entry) + " calls the internal cancel without recording the request"
 			}
 		}
 	}
@@ -415,7 +502,7 @@ func checkCanceledVerdict(w *World, r *Report, ro *Roles) {
 			}
 		}
 	}
-	ruleA := consumed != "" && nDeliver > 0
+	ruleA := consumed != "" && nDeliver > 0 && requestsOK
 
 	// (B) the scheduler never returns a possibly-nil result after it took the cancel edge.
 	// The isDone == true edge does NOT discharge: a stage can be "done" because allow_failure
@@ -473,13 +560,13 @@ func checkCanceledVerdict(w *World, r *Report, ro *Roles) {
 	switch {
 	case ruleA:
 		r.OK("verdict.acknowledged-cancel-is-reported", key, w.Pos(ro.CancelInt.Pos()),
-			fmt.Sprintf("(A) every delivering path of %s stores %s = true on the job under the lock, and %s marks the job canceled on every completing path where it is set — whatever the scheduler returns (cancel between two stages, allow_failure task killed by the cancel, cancel racing with the last task's regular end)", FuncName(ro.CancelInt), consumed, FuncName(ro.Completed)))
+			fmt.Sprintf("(A) every acknowledging path of %s stores %s = true on the job under the lock, every cancel request (exported cancel, forced shutdown) goes through it, and %s marks the job canceled on every completing path where it is set — whatever the scheduler returns (cancel between two stages, allow_failure task killed by the cancel, cancel racing with the last task's regular end)", FuncName(wrapperFn), consumed, FuncName(ro.Completed)))
 	case ruleB:
 		r.OK("verdict.acknowledged-cancel-is-reported", key, badPos,
 			fmt.Sprintf("(B) on all %d return paths of the scheduler that took the `cancelled == 1` edge a non-nil result is returned", nCancel))
 	default:
 		r.Viol("verdict.acknowledged-cancel-is-reported", key, badPos,
-			"neither (A) the acknowledging path of the internal cancel records the request on the job for the completion handler, nor (B) the scheduler returns a non-nil result on every path after the cancel edge: "+nameOr(bad, "no cancel edge found")+
+			"neither (A) every acknowledged cancel request is recorded on the job for the completion handler ("+requestDetail+"), nor (B) the scheduler returns a non-nil result on every path after the cancel edge: "+nameOr(bad, "no cancel edge found")+
 				" — an acknowledged cancel can end as a plain success: when it lands between two stages, when the task it kills has allow_failure (its context.Canceled is downgraded to 'done'), or when the last task ends regularly at the same moment")
 	}
 
